@@ -228,7 +228,7 @@ def _safe_impl(chk, case):
 
 
 def write_replay(pid, kind, case, extra):
-    d = os.path.join(lib.WORK, "replay")
+    d = os.path.join(lib.SCRATCH, "replay")
     os.makedirs(d, exist_ok=True)
     h = lib.hashlib.sha1(json.dumps([kind, case, extra.get("why")], sort_keys=True, default=str).encode()).hexdigest()[:12]
     path = os.path.join(d, "%s-%s.json" % (pid, h))
@@ -261,7 +261,7 @@ def run_check(chk, tier, seed, replay=None, max_report=5):
         print("oracle:", why or "property holds on this case")
         return 1 if why else 0
 
-    for old in glob.glob(os.path.join(lib.WORK, "replay", pid + "-*.json")):
+    for old in glob.glob(os.path.join(lib.SCRATCH, "replay", pid + "-*.json")):
         try:
             os.remove(old)
         except OSError:
@@ -456,8 +456,8 @@ def run_check(chk, tier, seed, replay=None, max_report=5):
         "wall_s": round(time.time() - t0, 2),
         "violations": violations,
     }
-    os.makedirs(os.path.join(lib.VERIF, "evidence"), exist_ok=True)
-    with open(os.path.join(lib.VERIF, "evidence", pid + ".json"), "w") as f:
+    os.makedirs(lib.EVIDENCE, exist_ok=True)
+    with open(os.path.join(lib.EVIDENCE, pid + ".json"), "w") as f:
         json.dump(ev, f, indent=1, default=str)
     for l in out_lines:
         print(l)
